@@ -240,7 +240,7 @@ func c09Configs(thorough bool) (cfgs []modelCfg, bounds []int) {
 					}
 					rules = append(rules, r)
 				}
-				cfg := modelCfg{Prop: "C09", Rules: rules, Model: m.name, B: m.b, N: m.n, M: m.m, Names: m.names, Twice: true}
+				cfg := modelCfg{Prop: "C09", Rules: rules, Model: m.name, B: m.b, N: m.n, M: m.m, Names: m.names, Twice: true, SameDc: (fi+mi)%2 == 0}
 				if m.dag != nil {
 					continue // the DAG model is driven through its own config below
 				}
@@ -259,6 +259,47 @@ func c09Configs(thorough bool) (cfgs []modelCfg, bounds []int) {
 				}
 				bounds = append(bounds, b)
 			}
+		}
+	}
+	// conc blocks start goroutines in every model: every fault inside a conc block (and blocks with
+	// several members of the kind that fails) once more in the sort model under real schedule exploration
+	concFaults := []string{
+		`conc {
+    x = 1 / zero
+    y = 2
+    z = 3
+  }`, `conc {
+    nofn(1)
+    fint(2)
+    fint(3)
+  }`, `conc {
+    p.M(1)
+    s.M(2)
+    s.M(3)
+  }`, `conc {
+    s.In.Nope(1)
+    s.In.M(2)
+    s.In.M(3)
+  }`, `conc {
+    y = 2
+    x = 1 / zero
+    fint(2)
+    s.M(3)
+  }`}
+	for _, f := range faultStmts {
+		if strings.HasPrefix(f, "conc {") {
+			concFaults = append(concFaults, f)
+		}
+	}
+	for _, f := range concFaults {
+		for _, b := range []bool{true, false} {
+			rules := []ruleCfg{{Name: ruleNames[0], Sal: 9, Fault: f}, {Name: ruleNames[1], Sal: 6}}
+			cfgs = append(cfgs, modelCfg{Prop: "C09", Rules: rules, Model: "Execute", B: b})
+			bb := 1
+			if thorough {
+				bb = 2
+			}
+			bounds = append(bounds, bb)
 		}
 	}
 	return
@@ -388,7 +429,7 @@ func init() {
 		BudgetThor:  30 * time.Minute,
 		Kind:        "schedules",
 		Rule: fmt.Sprintf("%d statement faults + %d return-position faults (type mismatches in arithmetic/comparison/logic/!, division by zero, unknown variable/function/method, wrong-class stores, nil pointers, out-of-range / negative / wrong-type indexes and keys, non-boolean conditions, bad call arguments and arities, panicking injected functions (value, error, runtime error), void result used as value, failing loop step, non-iterable forRange, faults inside conc) x nesting {top, if, for, forRange} [quick: rotated] + 6 endless for loops (iterations ending normally, through continue - direct, nested, mixed -, with an unreachable break), ", len(faultStmts), len(faultReturns)) +
-			"as rule 1-of-3 and 2-of-3 next to healthy observer rules x every engine model (x policy) [quick: every second], each called twice on the same engine under the default schedule; representatives under every schedule with <=1 (2) deviations from the default scheduler (delay bounding) in the goroutine-spawning models; plus representatives behind all 24 pool execute methods x execution models, three requests each. " +
+			"as rule 1-of-3 and 2-of-3 next to healthy observer rules x every engine model (x policy) [quick: every second], each called twice on the same engine (alternately with a fresh data context and on the same builder and data context) under the default schedule; representatives under every schedule with <=1 (2) deviations from the default scheduler (delay bounding) in the goroutine-spawning models; every fault inside a conc block, and conc blocks with several members of the failing kind, in the sort model under every schedule with <=1 (2) deviations; plus representatives behind all 24 pool execute methods x execution models, three requests each. " +
 			"Oracle: the call returns (no panic in the caller, no panic on any gengine goroutine, no deadlock, step horizon not exceeded), error non-nil, the other rules run exactly as the model's reference plan prescribes, the second call behaves the same",
 		Assume: []string{"injected functions terminate", "one level of unbounded loop (the engine's 10000-iteration cut-off)"},
 		Run: func(c *hx.Ctx) {
